@@ -206,10 +206,11 @@ Denote(FC, twopl) ==
                     ELSE ZeroRow(FC.ns)] ]
 
 -----------------------------------------------------------------------------
-(* Rendering.  A style is [sep, lead, trail, colsep] of blank sequences:   *)
-(* sep between list entries, lead/trail around a line, colsep after ':'.   *)
+(* Rendering.  A style is [sep, lead, trail, colsep, eol]: blank sequences  *)
+(* between list entries, around a line and after ':', and the line end     *)
+(* (LF, or CR LF as written on Windows).                                   *)
 
-PlainStyle == [sep |-> <<32>>, lead |-> <<>>, trail |-> <<>>, colsep |-> <<32>>]
+PlainStyle == [sep |-> <<32>>, lead |-> <<>>, trail |-> <<>>, colsep |-> <<32>>, eol |-> <<10>>]
 
 Join(toks, sep) ==
     FoldLeft(LAMBDA acc, t : IF acc = <<>> THEN t ELSE acc \o sep \o t, <<>>, toks)
@@ -218,7 +219,7 @@ ListText(list, rks, st) == Join(WriteTokens(list, TiesOfRanks(rks)), st.sep)
 
 Field(n, st) == Digits(n) \o <<COLONc>> \o st.colsep
 
-LineOf(body, st) == st.lead \o body \o st.trail \o <<NLc>>
+LineOf(body, st) == st.lead \o body \o st.trail \o st.eol
 
 (* The generator's trailing block is free text for the reader; a fixed     *)
 (* sample ("instance generation parameters\nnumber_of_agents_type_1: 2\n") *)
